@@ -2,7 +2,7 @@
 """tools/merge_agent.py Cxx : merge a build agent's workspace /tmp/w-Cxx into /verif and /repo"""
 import sys, os, subprocess, shutil, re, json
 P = sys.argv[1]; p = P.lower(); W = f"/tmp/w-{P}"
-EXT = "-ext" if len(sys.argv) > 2 and sys.argv[2] == "ext" else ""
+EXT = ("-" + sys.argv[2]) if len(sys.argv) > 2 else ""
 def sh(cmd, **kw): return subprocess.run(cmd, shell=True, text=True, capture_output=True, **kw)
 # 1. files
 src = f"{W}/verif"
